@@ -1303,3 +1303,35 @@ benign("read_sample_threshold_as_greater_than_one", ["C09", "C10"], "src/version
             return self.update_stats(&seek_charge_metadata);""",
     new="""        if num_files_with_key > 1 {
             return self.update_stats(&seek_charge_metadata);""")
+
+# ---- 30 more (sets 7 and 8), aimed at the anchors of the round-4 rules
+benign_patch("refactor_s7_01", "benign/set7_refactor01.diff", note='pick_compaction size branch: for+break -> iterator find')
+benign_patch("refactor_s7_02", "benign/set7_refactor02.diff", note='pick_compaction: level-0 expansion extracted into add_overlapping_level_files')
+benign_patch("refactor_s7_03", "benign/set7_refactor03.diff", note='DB::recover CURRENT handling: guard clauses; if let NotFound -> !=')
+benign_patch("refactor_s7_04", "benign/set7_refactor04.diff", note='log_and_apply: tail-expression match')
+benign_patch("refactor_s7_05", "benign/set7_refactor05.diff", note='log_and_apply error arm: discard_new_manifest_file helper called with ?')
+benign_patch("refactor_s7_06", "benign/set7_refactor06.diff", note='get_new_version_from_current: if let Some; local reused')
+benign_patch("refactor_s7_07", "benign/set7_refactor07.diff", note='OsFileSystem::create_file: .append(append).truncate(!append)')
+benign_patch("refactor_s7_08", "benign/set7_refactor08.diff", note='TmpFileSystem::create_file: get_create_options helper')
+benign_patch("refactor_s7_09", "benign/set7_refactor09.diff", note='InMemoryFileSystem::create_file: conditions swapped; get; clone before insert')
+benign_patch("refactor_s7_10", "benign/set7_refactor10.diff", note='compact_memtable: early return -> else')
+benign_patch("refactor_s7_11", "benign/set7_refactor11.diff", note='convert_memtable_to_file: file_size local')
+benign_patch("refactor_s7_12", "benign/set7_refactor12.diff", note='recover_wal_records after the loop: if let Ok -> match')
+benign_patch("refactor_s7_13", "benign/set7_refactor13.diff", note='finalize_compaction_inputs expansion: operand swaps; named sum')
+benign_patch("refactor_s7_14", "benign/set7_refactor14.diff", note='compact_tables after the merge: locals removed/added')
+benign_patch("refactor_s7_15", "benign/set7_refactor15.diff", note='compaction_task: early return true -> if/else + result local')
+benign_patch("refactor_s8_01", "benign/set8_refactor01.diff", note='DB::get tail: charge_seek_to_version helper')
+benign_patch("refactor_s8_02", "benign/set8_refactor02.diff", note='TableBuilder::write_block: one emit call')
+benign_patch("refactor_s8_03", "benign/set8_refactor03.diff", note='FilterBlockReader::key_may_match: early return; match arms yield values')
+benign_patch("refactor_s8_04", "benign/set8_refactor04.diff", note='FilterBlockReader::new: locals')
+benign_patch("refactor_s8_05", "benign/set8_refactor05.diff", note='BloomFilterPolicy::key_may_match: range for -> countdown while')
+benign_patch("refactor_s8_06", "benign/set8_refactor06.diff", note='Version::get: nested if / if let take()')
+benign_patch("refactor_s8_07", "benign/set8_refactor07.diff", note='record_read_sample: short-circuit && expression')
+benign_patch("refactor_s8_08", "benign/set8_refactor08.diff", note='recover_unrecorded_logs: cmp::max')
+benign_patch("refactor_s8_09", "benign/set8_refactor09.diff", note='is_fully_consumed: locals; swapped operands')
+benign_patch("refactor_s8_10", "benign/set8_refactor10.diff", note='read_physical_record: unexpected_eof_error helper')
+benign_patch("refactor_s8_11", "benign/set8_refactor11.diff", note='make_room_for_write: match on LogWriter::new result')
+benign_patch("refactor_s8_12", "benign/set8_refactor12.diff", note='Drop for DB: while -> loop/break')
+benign_patch("refactor_s8_13", "benign/set8_refactor13.diff", note='skip_empty_data_blocks_*: if let Some')
+benign_patch("refactor_s8_14", "benign/set8_refactor14.diff", note='finish_compaction_output_file: immutable match expression')
+benign_patch("refactor_s8_15", "benign/set8_refactor15.diff", note='apply_changes tail: if let Some(..) = front()')
